@@ -5,6 +5,7 @@ package main
 
 import (
 	"fmt"
+	"strconv"
 	"go/token"
 	"go/types"
 	"sort"
@@ -73,6 +74,7 @@ type World struct {
 	Fset   *token.FileSet
 	FnByKey map[string]*ssa.Function
 	Opts   Options
+	recCache map[string]map[string]bool
 }
 
 type Options struct {
@@ -155,7 +157,12 @@ func (e *Enc) freshVal(prefix string, t types.Type) Val {
 	ss := flatten(t)
 	cn := compNames(t)
 	v := Val{T: t}
+	offs := strOffsetIdx(t)
 	for i, s := range ss {
+		if offs[i] {
+			v.C = append(v.C, "0")
+			continue
+		}
 		suffix := ""
 		if len(ss) > 1 {
 			suffix = "." + cn[i]
@@ -574,6 +581,17 @@ func rootAlloc(v ssa.Value) *ssa.Alloc {
 	}
 }
 
+// loopPos binds _pos to the hidden position of the range iterator advanced in the loop header.
+func (e *Enc) loopPos(c *Ctx, li *loopInfo) {
+	for _, ins := range li.header.Instrs {
+		if nx, ok := ins.(*ssa.Next); ok {
+			if p, ok := c.St.m["it:"+nx.Iter.Name()]; ok {
+				c.Vars["_pos"] = ival(p)
+			}
+		}
+	}
+}
+
 func (e *Enc) ctx(st *State, where string) *Ctx {
 	c := &Ctx{E: e, Vars: map[string]Val{}, St: st, where: e.key + " " + where}
 	for k, v := range e.paramVals {
@@ -765,7 +783,9 @@ func (e *Enc) block(b *ssa.BasicBlock) {
 		li.entry = st.clone()
 		li.gIn = g
 		entryCtx := e.ctx(li.entry, fmt.Sprintf("loop %d entry", li.ord))
+		e.loopPos(entryCtx, li)
 		c := e.ctx(st, fmt.Sprintf("loop %d init", li.ord))
+		e.loopPos(c, li)
 		c.LoopEntry = entryCtx
 		for i, inv := range li.spec.Inv {
 			e.assert(g, fmt.Sprintf("loop%d.init.%s", li.ord, clauseName(inv, i)), "inv", c.boolT(inv.Expr), inv.Src, b.Instrs[0].Pos())
@@ -799,6 +819,16 @@ func (e *Enc) block(b *ssa.BasicBlock) {
 			}
 			if hv {
 				st.m[k] = e.fresh("lh."+k, e.sortOfKey(k))
+				if strings.HasPrefix(k, "c:") {
+					for a := range cells {
+						if strings.HasPrefix(k, "c:"+a.Name()+":") {
+							j, _ := strconv.Atoi(k[strings.LastIndex(k, ":")+1:])
+							if strOffsetIdx(e.cellT[a])[j] {
+								st.m[k] = "0"
+							}
+						}
+					}
+				}
 			}
 		}
 		// type facts for havoced cells
@@ -815,6 +845,7 @@ func (e *Enc) block(b *ssa.BasicBlock) {
 		}
 		li.head = st.clone()
 		hc := e.ctx(st, fmt.Sprintf("loop %d invariant", li.ord))
+		e.loopPos(hc, li)
 		hc.LoopEntry = entryCtx
 		for _, inv := range li.spec.Inv {
 			e.assume(g, hc.boolT(inv.Expr))
@@ -837,7 +868,9 @@ func (e *Enc) addEdge(from, to *ssa.BasicBlock, guard string, st *State) {
 	if e.backEdge(from, to) {
 		li := e.loops[to]
 		entryCtx := e.ctx(li.entry, fmt.Sprintf("loop %d entry", li.ord))
+		e.loopPos(entryCtx, li)
 		c := e.ctx(st, fmt.Sprintf("loop %d preserve", li.ord))
+		e.loopPos(c, li)
 		c.LoopEntry = entryCtx
 		pos := from.Instrs[len(from.Instrs)-1].Pos()
 		li.nback++
